@@ -156,7 +156,7 @@ def check_failed_write(ctx):
         for (sw, l) in ind_true:
             r, ps = A.reach(body, edge_targets(body, sw, l))
             rel = [n for n in r if body.nodes[n].kind == "call" and any(
-                t and (path_matches(t, "FreeSpaceManager::release_sectors") or ctx.prog.reaches(t, _is_release)) for t in ctx.prog.targets(body.nodes[n].ev))]
+                t and (path_matches(t, "FreeSpaceManager::release_sectors") or ctx.prog.reaches_name(t, "FreeSpaceManager::release_sectors")) for t in ctx.prog.targets(body.nodes[n].ev))]
             ctx.check(not rel, inst, "FORBID", body.path, "an indeterminate failure never releases the touched extents", body.where(sw))
     # dirty marking precedes the first device write of a batch
     body = ctx.fn("write_buffer::process_write_batch", inst)
